@@ -102,6 +102,14 @@ Theorem C17_mqtt_once_in_order_refuted :
 Proof. exact mqtt_publish_without_client_refuted. Qed.
 Print Assumptions C17_mqtt_once_in_order_refuted.
 
+(* whatever the client does, for EVERY history: what the client is handed is the
+   demanded sequence with some messages left out - never a duplicate, never out of
+   order, never a message nobody addressed to the target *)
+Theorem C17_mqtt_never_duplicates_reorders_invents : forall c h,
+  sub (ms_published (mqtt_drain (mqtt_run c h))) (mqtt_spec c [] h).
+Proof. exact mqtt_published_sub_spec. Qed.
+Print Assumptions C17_mqtt_never_duplicates_reorders_invents.
+
 (* selection: exactly the messages whose name is the component's name *)
 Theorem C17_mqtt_selects_exactly : forall c r ms,
   select c r ms = map (mk_pub c r) (filter (addressed c) ms).
